@@ -81,8 +81,6 @@ EP_EXCUSED = [
     (r"^Frame\.get_image\(name\)", "ignores its name argument by design (a frame holds one image)"),
     (r"^(Document|Content|Styles)\.get_style\(display_name\)", "delegates to Element.get_style(display_name=), which is driven"),
     (r"^Document\.insert_style\(name\)|^Table\.set_named_range\(table_name\)", "the name to store under; the replacement of an existing object of that name is driven through Document.insert_style(style) / Table.set_named_range(name)"),
-    (r"^Document\.(get_cell_style_properties|get_cell_background_color|get_table_displayed|set_table_displayed)\(table\)",
-     "resolves the table through Document._get_table exactly as Document.get_table_style, which is driven"),
     (r"^(Paragraph\.(set_|insert_)|Style\.set_|Meta\.set_(title|template)|NamedRange\.set_|Row\.set_|Table\.set_(value|values|row_values|column_values)\(|TOC\.set_|Column\.set_|Frame\.set_|TextChange\.set_id|TextChangedRegion\.set_id|Element\.append_named_range)",
      "stores under the identifier / applies a style name; nothing is looked up by it (Paragraph.insert_reference resolves its name through Element.get_reference_mark, which is driven)"),
 ]
@@ -118,6 +116,13 @@ def introspect_entry_points(o):
 
 
 EP_CALLS = {}
+EP_ANNOT = {}        # entry point -> annotation of the identifier parameter
+
+
+def multi_type(annotation):
+    """the parameter accepts a str and something else (an index, an element, a list ...): an identifier can be mistaken for the other type"""
+    parts = [x.strip() for x in str(annotation).replace("Optional[", "").replace("]", " ").split("|")]
+    return "str" in parts and any(x not in ("str", "None", "") for x in parts)
 
 
 def install_entry_point_counters(o):
@@ -127,6 +132,7 @@ def install_entry_point_counters(o):
     for c, n, f, sig, ps in eps:
         for pn in ps:
             EP_CALLS.setdefault("%s.%s(%s)" % (c.__name__, n, pn), 0)
+            EP_ANNOT["%s.%s(%s)" % (c.__name__, n, pn)] = str(sig.parameters[pn].annotation)
         if c.__name__ == "Element" and "attribute" in n:
             continue                      # called on every property access; excused statically
 
@@ -255,9 +261,12 @@ def _mentions(code, const):
 
 
 class Site:
-    def __init__(self, key, attr, make, look, host="p", expect=("stored",), heavy=False, main=False):
+    def __init__(self, key, attr, make, look, host="p", expect=("stored",), heavy=False, main=False, extras_ok=True, absent_ok=()):
         self.key, self.attr, self.make, self.look, self.host = key, attr, make, look, host
         self.expect, self.heavy, self.main = list(expect), heavy, main
+        self.extras_ok = extras_ok            # False: the answer cannot tell the decoys apart (a boolean)
+        self.absent_ok = tuple(absent_ok)     # further "not found" exception types of this entry point
+        self.multi = []                       # multi-type entry points (str | int ...) the lookup goes through, measured on the benign run
         self.benign = None
         self.benign_absent = None
         self.kinds = []          # other element kinds (prefixed tags) the site's identifier query can return
@@ -437,6 +446,16 @@ def build_sites(o):
         host="doc-tables-ranges", heavy=True)
     add("Document.get_table_style/table", ck("table:name"), lambda i, r: o.Table(i, style="ts-" + r),
         lambda h, i, ob: h.get_table_style(i), host="doc-tables-styles", heavy=True)
+    # the table-by-name-or-index siblings (round 5): Document._get_table(table: int | str)
+    add("Document.get_table_displayed/table", ck("table:name"), lambda i, r: o.Table(i, style="ts-" + r),
+        lambda h, i, ob: _hidden(h.get_table_displayed(i), ob), host="doc-tables-styles", heavy=True, extras_ok=False)
+    add("Document.set_table_displayed/table", ck("table:name"), lambda i, r: o.Table(i, style="ts-" + r),
+        lambda h, i, ob: _changed_attr(h.body, ck("table:style-name"), lambda: h.set_table_displayed(i, False)),
+        host="doc-tables-styles", heavy=True, absent_ok=(AttributeError,))
+    add("Document.get_cell_style_properties/table", ck("table:name"), lambda i, r: _table_with_cell(o, i, r),
+        lambda h, i, ob: _role_of_color(h.get_cell_style_properties(i, "A1").get("fo:background-color"), ob), host="doc-tables-cells", heavy=True)
+    add("Document.get_cell_background_color/table", ck("table:name"), lambda i, r: _table_with_cell(o, i, r),
+        lambda h, i, ob: _role_of_color(_not_default(h.get_cell_background_color(i, (0, 0), default="none")), ob), host="doc-tables-cells", heavy=True)
     add("Document.get_list_style", ck("style:name"), lambda i, r: o.Style("list", name=i),
         lambda h, i, ob: _list_style(o, h, i),
         host="doc-styles", heavy=True)
@@ -538,6 +557,40 @@ def _changed_text(meta, action):
     return [r for (r, a), (_, b2) in zip(before, after) if a != b2]
 
 
+def _table_with_cell(o, ident, role):
+    t = o.Table(ident)
+    t.set_cell((0, 0), o.Cell(role, style="ce-" + role))
+    return t
+
+
+def _not_default(v):
+    return None if v == "none" else v
+
+
+def _hidden(displayed, ob):
+    """with the target stored, only its style says display=false; without it every table's style does, and a table that
+    is not found counts as displayed"""
+    if ROLE_TARGET in ob:
+        return ROLE_TARGET if displayed is False else "other"
+    return "other" if displayed is False else None
+
+
+ROLE_TARGET = "".join(["sto", "red"])      # (spelled so that the lambdas using these helpers are not taken for methods of the target)
+
+
+def _color(role):
+    return "#%06x" % (role_code(role) + 1)
+
+
+def _role_of_color(v, ob):
+    if v is None:
+        return None
+    for r in list(ob) + ["plain", ROLE_TARGET]:
+        if _color(r) == str(v).lower():
+            return r
+    return "other"
+
+
 def _list_style(o, doc, ident):
     st = o.Style("paragraph", name="child")
     st.set_attribute("style:list-style-name", ident)
@@ -621,7 +674,7 @@ def make_host(o, site, objs):
         for role, el in objs:
             mark(el, role); tgt.append(node(el))
         return d
-    if kind in ("doc-tables-ranges", "doc-tables-styles"):
+    if kind in ("doc-tables-ranges", "doc-tables-styles", "doc-tables-cells"):
         d = o.Document("spreadsheet")
         b = d.body
         b.clear()
@@ -632,10 +685,19 @@ def make_host(o, site, objs):
             for k, (role, el) in enumerate(objs):
                 nr = o.NamedRange("nr_%d" % k, "A1", node(el).get("{urn:oasis:names:tc:opendocument:xmlns:table:1.0}name"))
                 mark(nr, role); node(ne).append(node(nr))
+        elif kind == "doc-tables-styles":
+            auto = node(d.content.root).find("{urn:oasis:names:tc:opendocument:xmlns:office:1.0}automatic-styles")
+            for role, el in objs:
+                st = o.Style("table", name="ts-" + role)
+                hidden = role == "stored" or not any(r == "stored" for r, _ in objs)      # only the target is hidden; all of them when it is not stored
+                st.set_properties({"table:display": "false" if hidden else "true"}, area="table")
+                mark(st, role); auto.append(node(st))
         else:
             auto = node(d.content.root).find("{urn:oasis:names:tc:opendocument:xmlns:office:1.0}automatic-styles")
             for role, el in objs:
-                st = o.Style("table", name="ts-" + role); mark(st, role); auto.append(node(st))
+                st = o.Style("table-cell", name="ce-" + role)
+                st.set_properties({"fo:background-color": _color(role)}, area="table-cell")
+                mark(st, role); auto.append(node(st))
         return d
     if kind == "row":
         h = o.Row()
@@ -853,14 +915,14 @@ def run_case(o, site, ident, decoy, third="plain", mode="present", kind=0, varia
     except CallTimeout as e:
         out["raised"] = repr(e)
     except Exception as e:
-        if mode == "absent" and isinstance(e, ABSENT_OK) and not isinstance(e, etree.Error):
+        if mode == "absent" and isinstance(e, ABSENT_OK + site.absent_ok) and not isinstance(e, etree.Error):
             out["absent_answer"] = "%s: %s" % (type(e).__name__, str(e)[:100])
         else:
             out["raised"] = "%s: %s" % (type(e).__name__, str(e)[:200])
     out["queries"] = dedupe(CAP)
     del CAP[:]
     # every other stored identifier must find exactly its own object as well
-    if extras and mode == "present" and site.expect == ["stored"]:
+    if extras and mode == "present" and site.expect == ["stored"] and site.extras_ok:
         cands = [(r, n) for r, n, _ in out["layout"] if r.startswith("decoy")]
         if cands:
             start = variant % len(cands)
@@ -961,6 +1023,12 @@ def delimiter_idents(syntaxes):
     return res
 
 
+# identifiers that look like another accepted argument type or like a keyword: digit strings where an index / position is
+# accepted, None-like words, coordinate-looking names where coordinates are accepted, family / kind keywords
+LOOKALIKE = ["0", "1", "2", "3", "-1", "007", "2024", "\u00b2", "\u0661", "1.0", "1e3", "None", "none", "null", "A1", "B2:C3", "1:2", "$A$1",
+             "table", "paragraph", "default", "text", "list", "style", "name", "*", "."]
+
+
 def gen_idents(rng, n_random, n_long=2):
     out = list(EDGE)
     for _ in range(n_random):
@@ -982,6 +1050,10 @@ def gen_idents(rng, n_random, n_long=2):
 def ident_class(s):
     if s in ("true", "false"):
         return "boolean-word-identifier"
+    if s.isdigit() or (s[:1] == "-" and s[1:].isdigit()):
+        return "digits-only-identifier"
+    if s in LOOKALIKE:
+        return "keyword-or-coordinate-like-identifier"
     dq, sq = '"' in s, "'" in s
     if dq and sq:
         return "both-quote-kinds-in-value"
@@ -1292,8 +1364,11 @@ def run(tier, seed, replay=None):
     # benign run of every site: the queries it builds for "plain" (decoys "plaim"..., last object "other"); the
     # kinds of element its identifier query can return are read off those queries, then the benign runs are redone
     # with decoys of every kind; the same with the identifier not stored
+    multi_eps = [ep for ep, a in EP_ANNOT.items() if multi_type(a)]
     for s in sites:
+        before_calls = {ep: EP_CALLS[ep] for ep in multi_eps}
         res = run_case(o, s, "plain", "plaim", third="other", extras=0)
+        s.multi = [ep for ep in multi_eps if EP_CALLS[ep] > before_calls[ep]]
         s.kinds = derive_kinds(o, s, res.get("queries") or [])
         for kind in range(len(s.kinds), -1, -1):
             res = run_case(o, s, "plain", "plaim", third="other", kind=kind, extras=0)
@@ -1326,29 +1401,35 @@ def run(tier, seed, replay=None):
         shorter = [i for i in pool[len(EDGE):] if len(i) < 40]
         for s in sites:
             if s.heavy:
-                ids = EDGE[s.index % 3::3] + rng.sample(shorter, 6 if quick else 25)
+                ids = EDGE[s.index % (4 if quick else 3)::(4 if quick else 3)] + rng.sample(shorter, 4 if quick else 25)
             elif s.main:
                 ids = EDGE + rng.sample(pool[len(EDGE):], 25 if quick else 350)
             else:
-                ids = (EDGE[s.index % 4::4] + rng.sample(shorter, 6)) if quick else (EDGE + rng.sample(shorter, 200))
+                ids = (EDGE[s.index % 6::6] + rng.sample(shorter, 3)) if quick else (EDGE + rng.sample(shorter, 200))
             if s.main and (not quick or s.key in ("get_table/name", "get_bookmark", "Manifest.get_media_type", "get_reference_mark/single",
                                                    "ReferenceMarkStart.referenced_text", "get_between/bookmarks")):
                 ids = small + ids; exhaustive_n += len(small)
             # the delimiter sequences of the site's own syntaxes at start / middle / end of the identifier: never subsampled
             ids = ids + [i for i in delimiter_idents(s.syntaxes) if i not in ids]
             ids = ["true", "false"] + [i for i in ids if i not in ("true", "false")]     # the boolean words go through every site
+            # look-alikes of other argument types / keywords: all of them where the entry point accepts more than a str, a rotating part elsewhere
+            look = LOOKALIKE if (s.multi or not quick) else LOOKALIKE[s.index % 6::6]
+            ids = look + [i for i in ids if i not in look]
             for n_i, i in enumerate(ids):
                 v = rng.randrange(1000)
                 ex = (2 if not s.heavy else 1) if not quick else (0 if (s.heavy and not s.main) else (1 if n_i % 3 == 0 or s.main else 0))
                 work.append(dict(kind="lookup", site=s.key, ident=i, decoy=decoy_of(i, v), variant=v, extras=ex))
             # the identifier stored as each other kind of element the site's query can return
             for kk in range(1, len(s.kinds) + 1):
-                for i in (ids[::2] if quick else ids):
+                for i in (ids[::3] if quick else ids):
                     v = rng.randrange(1000)
                     work.append(dict(kind="lookup", site=s.key, ident=i, decoy=decoy_of(i, v), variant=v, as_kind=kk, extras=0 if quick else 1))
             # the identifier not stored at all: the lookup must return nothing
             if not s.needs_stored:
-                for i in ["absent"] + (ids[s.index % 5::5] if quick else ids[s.index % 3::3]):
+                absent_ids = ["absent"] + (ids[s.index % 6::6] if quick else ids[s.index % 3::3])
+                if s.multi:
+                    absent_ids += [i for i in LOOKALIKE if i not in absent_ids]
+                for i in absent_ids:
                     v = rng.randrange(1000)
                     work.append(dict(kind="lookup", site=s.key, ident=i, decoy=decoy_of(i, v), variant=v, mode="absent"))
         for k, i in enumerate(small + pool):
@@ -1471,7 +1552,10 @@ def run(tier, seed, replay=None):
              "decoys: near-identical in the substring / prefix / suffix / superstring / case / white-space / quote sense on objects of the same kind (six per case) and of every other kind the query can return, before and after the target; modes: stored / stored as another kind / not stored; the decoys' own identifiers are looked up too. "
              "non-trivial = identifier contains an XPath/XML-significant character; distinct = distinct (site, identifier actually stored, mode, kind)" % (len(EDGE), len(set(RICH)), 3 if tier == "quick" else 4),
         samples=samples, sites=len(sites) + 3, cases_per_site=hist_site, codes={str(k): v for k, v in sorted(hist_code.items())},
-        entry_points=dict(found_by_introspection=len(EP_CALLS), driven=ep_driven, not_driven_with_reason=ep_excused, not_driven_unclassified=ep_open),
+        entry_points=dict(found_by_introspection=len(EP_CALLS), driven=ep_driven, not_driven_with_reason=ep_excused, not_driven_unclassified=ep_open,
+                          multi_type={ep: dict(annotation=EP_ANNOT[ep], driven=ep in ep_driven, sites=[x.key for x in sites if ep in x.multi])
+                                      for ep in sorted(EP_ANNOT) if multi_type(EP_ANNOT[ep])}),
+        lookalike_identifiers=LOOKALIKE,
         extra_lookups_of_decoy_identifiers=sum(len(rec.get("extra_lookups", [])) for w, rec, code in done),
         lookup_layer_failures=lookup_layer, lookup_modes=modes, kinds_per_site={x.key: x.kinds for x in sites if x.kinds}, rejected_by_setter=rejected, fidelity_divergences=fidelity, lookups_without_captured_query=no_query,
         reader_vs_libxml2_disagreements=len(lexer_disagree), corpus_cases=len(corpus), failing_keys=sorted(groups),
